@@ -104,7 +104,10 @@ def run_case(case):
     import numpy as np
     import bldfm
     from bldfm import utils as U
-    from bldfm.plotting.footprint import extract_percentile_contour
+    from bldfm.plotting.footprint import extract_percentile_contour as _epc
+    from vlib import purity
+
+    extract_percentile_contour = purity.guarded(_epc, "extract_percentile_contour")
     from vlib import gen
 
     rng = gen.rng_for(case["seed"], "C20", case["idx"])
